@@ -15,7 +15,7 @@ PROPERTY = 'C05'
 LEVEL = 'fault_enumeration'
 RULE = ('(a) seeded histories of opens (accepted / rejected by every handler '
         'outcome), polls, posts, frames, application disconnect(sid) / '
-        'disconnect(), CLOSE packets, protocol errors, WebSocket close / '
+        'disconnect(), CLOSE packets, protocol errors, WebSocket close / write failure / '
         'vanish, clients going silent, time advances across heartbeat '
         'deadlines, handler exceptions injected at seeded event indices; every '
         'history ends with all clients silent and virtual time run past every '
@@ -46,7 +46,7 @@ ASSUMPTIONS = ['handlers take (sid, reason), or - in a seeded share of the '
                'pre-emption)']
 REQUIRED = ['automaton', 'reason_ledger', 'exactly_one_disconnect',
             'after_end_probes', 'cause_pairs', 'handler_exception_contained',
-            'preempt_pairs', 'preemptions', 'dfs_leaves']
+            'preempt_pairs', 'preemptions', 'dfs_leaves', 'ws_write_failures']
 SHARD_TIMEOUT = {'quick': 500, 'thorough': 3400}
 
 TIMEOUT_REASONS = {'ping timeout', 'transport close', 'transport error'}
@@ -54,6 +54,7 @@ REASONS = {
     'client disconnect': {'client disconnect'},
     'server disconnect': {'server disconnect'},
     'transport close': {'transport close'},
+    'transport failure': {'transport close', 'transport error'},
     'silence': TIMEOUT_REASONS,
     'protocol error': {'server disconnect', 'transport error'},
 }
@@ -314,6 +315,10 @@ def run_history(rec, case):
                 R.ws_close(s, rng.choice(['close', 'close', 'vanish']))
                 if R.log[-1][0] == 'ws_vanish':
                     R.causes[-1]['cause'] = 'silence'
+            elif k < 0.655 and s.mode == 'websocket':
+                causes_used.add('wsbreak')
+                if R.ws_break(s):
+                    rec.count('ws_write_failures')
             elif k < 0.68:
                 causes_used.add('vanish')
                 R.vanish(s)
